@@ -90,6 +90,80 @@ fn mutate(rng: &mut Rng, b: &[u8]) -> Vec<u8> {
     v
 }
 
+/// a writer that accepts `left` bytes and then fails
+struct FailWriter { left: usize, got: Vec<u8> }
+impl std::io::Write for FailWriter {
+    fn write(&mut self, buf: &[u8]) -> std::io::Result<usize> {
+        if self.left == 0 { return Err(std::io::Error::new(std::io::ErrorKind::BrokenPipe, "transport down")); }
+        let n = buf.len().min(self.left);
+        self.left -= n;
+        self.got.extend_from_slice(&buf[..n]);
+        Ok(n)
+    }
+    fn flush(&mut self) -> std::io::Result<()> { Ok(()) }
+}
+
+/// ONE codec value used for a whole conversation: writes that fail (a refused oversize message, a transport error)
+/// and reads of frames of different sizes must leave nothing behind that changes a later message.
+fn codec_sequences(w: &mut Out, rng: &mut Rng, thorough: bool) {
+    for round in 0..(if thorough { 60 } else { 12 }) {
+        let codec = Codec::new();
+        let mut wire: Vec<u8> = Vec::new();
+        let mut sent: Vec<Message> = Vec::new();
+        let nsteps = 3 + rng.below(5);
+        let mut hist: Vec<String> = Vec::new();
+        for _ in 0..nsteps {
+            match rng.below(6) {
+                0 => {
+                    // refused: payload above the 16 MiB bound (only every other round: it is a big allocation)
+                    if round % 2 == 0 {
+                        let big = Message::Error { code: 1, message: "x".repeat(17 * 1024 * 1024) };
+                        let mut sink = Vec::new();
+                        let r = guarded(|| codec.write_message(&mut sink, &big));
+                        hist.push(format!("write oversize -> {}", match &r { Ok(Ok(())) => "ok", Ok(Err(_)) => "err", Err(()) => "PANIC" }));
+                        if !matches!(r, Ok(Err(_))) {
+                            let l = w.case("writemsg -", "SEQ", true);
+                            w.fail(l, "oversize-message-written", "write_message accepted a payload above MAX_PAYLOAD_SIZE");
+                        }
+                    }
+                }
+                1 => {
+                    let m = gen_msg(rng);
+                    let mut fw = FailWriter { left: rng.below(20) as usize, got: Vec::new() };
+                    let r = guarded(|| codec.write_message(&mut fw, &m));
+                    hist.push(format!("write to a failing transport -> {}", match &r { Ok(Ok(())) => "ok", Ok(Err(_)) => "err", Err(()) => "PANIC" }));
+                }
+                _ => {
+                    let m = gen_msg(rng);
+                    let mut one = Vec::new();
+                    let r = guarded(|| codec.write_message(&mut one, &m));
+                    let mut fresh = Vec::new();
+                    let r2 = guarded(|| Codec::new().write_message(&mut fresh, &m));
+                    hist.push(format!("write {}", &desc_msg(&m)[..desc_msg(&m).len().min(40)]));
+                    let same = matches!((&r, &r2), (Ok(Ok(())), Ok(Ok(()))) if one == fresh) || matches!((&r, &r2), (Ok(Err(_)), Ok(Err(_))));
+                    if !same {
+                        let l = w.case("writemsg -", "SEQ", true);
+                        w.fail(l, "codec-keeps-state-across-writes", &format!("after [{}] the same codec frames a message differently from a fresh codec", hist.join("; ")));
+                    }
+                    if let Ok(Ok(())) = r { wire.extend_from_slice(&one); sent.push(m); }
+                }
+            }
+        }
+        // read the whole conversation back through ONE codec
+        let mut rcodec = Codec::new();
+        let mut cur = Cursor::new(&wire);
+        for (k, m) in sent.iter().enumerate() {
+            let r = guarded(|| rcodec.read_message(&mut cur));
+            if !matches!(&r, Ok(Ok(m2)) if m2 == m) {
+                let l = w.case("readmsg -", "SEQ", true);
+                w.fail(l, "codec-keeps-state-across-reads", &format!("message #{k} of a conversation read through one codec differs from what was sent (history: {})", hist.join("; ")));
+                break;
+            }
+        }
+        w.count("codec-conversations");
+    }
+}
+
 pub fn run(w: &mut Out, thorough: bool, seed: u64) {
     w.rule = "headers: all 7 types × lengths {0,1,16Mi,16Mi+1,2^32-1,random} × flags, plus every single-byte mutation class of valid headers and random 12-byte strings; \
 messages: generated values of all seven kinds (fields at 0/1/max/random; empty and large signatures/deltas; strings incl. multi-byte UTF-8 and NUL), encoded by the real code, \
@@ -98,6 +172,7 @@ through every decoder (value or ERR compared); CLI `copia delta|patch` on valid 
 Non-trivial: payload ≥ 12 bytes; distinct = distinct query lines."
         .into();
     let mut rng = Rng::new(seed ^ 0xC20);
+    codec_sequences(w, &mut rng, thorough);
     let types = [MessageType::SignatureRequest, MessageType::SignatureResponse, MessageType::DeltaData, MessageType::Ack, MessageType::Error, MessageType::Ping, MessageType::Pong];
     // ---- headers
     for t in types {
